@@ -94,7 +94,8 @@ theorem pruneLabels_not_pruned_call : ¬ Pruned (pruneLabels callWitness) callWi
   have hnr : ∀ (res0 : List XNode) (i : XInstr) suf, i.ops = [] → isJumpOpcode i.opcode = false →
       ¬ Removable res0 (.instr i) suf := by
     intro res0 i suf hops hj hr
-    rcases hr with ⟨r, hr, _⟩ | ⟨hj', _⟩
+    rcases hr with (⟨r, hr, _⟩ | ⟨r, k, hr, _⟩) | ⟨hj', _⟩
+    · rw [hops] at hr; cases hr
     · rw [hops] at hr; cases hr
     · rw [hj] at hj'; cases hj'
   unfold callWitness at hp
